@@ -53,6 +53,37 @@ impl DomainParticipantPermissions {
   }
 }
 
+#[cfg(rustdds_verif)]
+impl DomainParticipantPermissions {
+  pub(crate) fn verif_new(grants: Vec<Grant>) -> Self {
+    Self {
+      grants,
+      original_string: String::new(),
+    }
+  }
+  pub(crate) fn verif_grants(&self) -> &[Grant] {
+    &self.grants
+  }
+}
+
+#[cfg(rustdds_verif)]
+impl Criterion {
+  pub(crate) fn verif_new(
+    topics: Vec<Pattern>,
+    partitions: Vec<Pattern>,
+    data_tags: Vec<(String, String)>,
+  ) -> Self {
+    Criterion {
+      topics,
+      partitions,
+      data_tags: data_tags
+        .iter()
+        .map(|(name, value)| DataTag::new(name, value))
+        .collect(),
+    }
+  }
+}
+
 // A Grant is a set of permissions for a particular DomainParticipant, which
 // is identified as a X.509 subject.
 // The permissions allow or deny the DP to publish, subscribe, or relay messages
